@@ -323,6 +323,8 @@ func main() {
 		colour(*out, rng)
 	case "tags":
 		tags(*out, *maxlen)
+	case "roles":
+		roles(*out)
 	case "front":
 		front(*out)
 	case "fatalchild":
